@@ -300,6 +300,28 @@ func TestC16Wire(t *testing.T) {
 			// the same bytes must follow an edit made while the user is logged in
 			admin := loginAs(rt, w, "10.0.0.2:1", "seed", "x", "seed")
 			c.TakeInbox()
+			// (what the account listing says about "u": asked before and after the edit)
+			listed := func(when string) hlref.Access {
+				r := admin.Request(hlref.TranListUsers)
+				for _, d := range r.GetAll(hlref.FData) {
+					fs, err := hlref.DecodeSubFields(d)
+					if err != nil {
+						rt.Fatalf("%s: list-users record unparseable: %v", when, err)
+					}
+					e := hlref.Tran{Fields: fs}
+					if login, _ := e.Get(hlref.FUserLogin); string(hlref.Obfuscate(login)) == "u" {
+						var a hlref.Access
+						acc, _ := e.Get(hlref.FUserAccess)
+						copy(a[:], acc)
+						return a
+					}
+				}
+				rt.Fatalf("%s: account u is not in the account listing", when)
+				return hlref.Access{}
+			}
+			if a := listed("before the edit"); a != bits {
+				rt.Fatalf("the account listing shows u with privileges %x, its file and session say %x", a[:], bits[:])
+			}
 			if r := admin.Request(hlref.TranSetUser, fld(hlref.FUserLogin, hlref.Obfuscate([]byte("u"))), sfld(hlref.FUserName, "U"), fld(hlref.FUserAccess, bits2[:]), fld(hlref.FUserPassword, []byte{0})); !okReply(r) {
 				rt.Fatalf("harness: set-user refused")
 			}
@@ -311,6 +333,9 @@ func TestC16Wire(t *testing.T) {
 			}
 			if !bytes.Equal(got, bits2[:]) {
 				rt.Fatalf("after an administrator changed the privileges of the logged-in user from %x to %x the client was sent %x", bits[:], bits2[:], got)
+			}
+			if a := listed("after the edit"); a != bits2 {
+				rt.Fatalf("after an administrator changed the privileges of u from %x to %x the account listing shows %x", bits[:], bits2[:], a[:])
 			}
 			// a further edit that spells the login in another letter case ("U" for "u"): whether the server takes it for the
 			// same account or refuses it, the session, the listing and the file end up with one and the same bitmap
